@@ -85,6 +85,14 @@ func runC02(c *Ctx) {
 	// R10 (shared with C07.R4): a worker that panics on request data answers neither that request nor the ones behind it
 	c.withRule("R10", func() { checkServerPanicSites(c) })
 	checkIDMethods(c, "R11")
+	// R12 (shared with C07.R3): the controller is stopped only after the pending requests were answered
+	c.withOnlyKeys("R3", "R12", []string{"packet manager stops after pending work", "response queued before the barrier"}, func() { runC07(c) })
+	// R13 (shared with C19.R7): an extended request gets a specific packet only for a configured name — decoded for a
+	// name that is switched off, it is answered under id 0 instead of its own
+	checkDecodedOnlyIfConfigured(c, "R13")
+	// R14 (shared with C03.R6): a reply whose Write failed must end the stream — later replies written behind a dropped
+	// one are not a prefix of the correct replies
+	checkWriteFailureLatched(c, "R14")
 	pos := func(in ssa.Instruction) string { return p.Pos(in.Pos()) }
 	handle := p.Func("handlePacket")
 	worker := p.Func("(*RequestServer).packetWorker")
